@@ -3,7 +3,8 @@
 (* Builtin members and indexing (C18): what each member with a sequential  *)
 (* meaning returns and what it does to its receiver, on boundary receivers *)
 (* and arguments.  Values are HmsValue's trees; text is a sequence of code *)
-(* points (exported as [k|->"str", cs]).                                    *)
+(* points (exported as [k|->"str", cs]): length, positions, prefixes and    *)
+(* distances count characters, whatever their encoded size.                *)
 (*                                                                         *)
 (* A case is [recv, m, args]; Eval gives                                   *)
 (*   [ok |-> TRUE, res |-> value, recv |-> receiver afterwards]  or        *)
@@ -23,6 +24,8 @@ VNone == [k |-> "opt", some |-> FALSE]
 VSome(x) == [k |-> "opt", some |-> TRUE, v |-> x]
 VList(es) == [k |-> "list", es |-> es]
 VRange(l, r, incl) == [k |-> "range", l |-> l, r |-> r, incl |-> incl]
+VF(h) == [k |-> "flt", v |-> h]                 \* a float, written as twice its value (halves are enough here)
+VAny(ks, vs) == [k |-> "anyobj", ks |-> ks, vs |-> vs]   \* keys (texts, ascending) and their values
 
 Ok(res, recv) == [ok |-> TRUE, res |-> res, recv |-> recv]
 Interrupt == [ok |-> FALSE]
@@ -33,13 +36,21 @@ IndexNorm(i, n) == IF i < 0 THEN i + n ELSE i
 MemInsertAt(s, p, x) == SubSeq(s, 1, p - 1) \o <<x>> \o SubSeq(s, p, Len(s))
 MemRemoveAt(s, p) == SubSeq(s, 1, p - 1) \o SubSeq(s, p + 1, Len(s))
 
-\* sorted permutation of a sequence of ints (stable insertion of each element)
+\* text is ordered by code points (= the byte order of its UTF-8 form)
+RECURSIVE TextLess(_, _)
+TextLess(a, b) ==
+    IF a = <<>> THEN b # <<>>
+    ELSE IF b = <<>> THEN FALSE
+    ELSE IF a[1] # b[1] THEN a[1] < b[1] ELSE TextLess(Tail(a), Tail(b))
+ElemLess(x, y) == IF x.k = "str" THEN TextLess(x.cs, y.cs) ELSE x.v < y.v
+
+\* sorted permutation of a sequence of ints / floats / texts (insertion of each element)
 RECURSIVE SortInts(_)
 SortInts(s) ==
     IF s = <<>> THEN <<>>
     ELSE LET rest == SortInts(Tail(s))
              x == Head(s)
-             pos == Cardinality({j \in 1..Len(rest) : rest[j].v < x.v}) + 1 IN
+             pos == Cardinality({j \in 1..Len(rest) : ElemLess(rest[j], x)}) + 1 IN
          MemInsertAt(rest, pos, x)
 
 \* text helpers
@@ -56,6 +67,40 @@ SplitOn(s, sep, acc) ==
 IsDigits(s) == s # <<>> /\ \A j \in 1..Len(s) : s[j] >= 48 /\ s[j] <= 57
 RECURSIVE DigitsVal(_)
 DigitsVal(s) == IF s = <<>> THEN 0 ELSE DigitsVal(SubSeq(s, 1, Len(s) - 1)) * 10 + (s[Len(s)] - 48)
+\* an optional sign, then digits
+IsIntText(s) == IsDigits(s) \/ (Len(s) > 1 /\ s[1] \in {43, 45} /\ IsDigits(Tail(s)))
+IntTextVal(s) == IF s[1] = 45 THEN 0 - DigitsVal(Tail(s)) ELSE IF s[1] = 43 THEN DigitsVal(Tail(s)) ELSE DigitsVal(s)
+RECURSIVE NatText(_)
+NatText(n) == IF n < 10 THEN <<48 + n>> ELSE NatText(n \div 10) \o <<48 + (n % 10)>>
+IntText(n) == IF n < 0 THEN <<45>> \o NatText(0 - n) ELSE NatText(n)
+TrueText == <<116, 114, 117, 101>>
+FalseText == <<102, 97, 108, 115, 101>>
+\* how an element reads inside join: text as it is, numbers in decimal
+ShowElem(e) == CASE e.k = "str" -> e.cs [] e.k = "int" -> IntText(e.v) [] e.k = "bool" -> IF e.v THEN TrueText ELSE FalseText
+RECURSIVE JoinSeq(_, _)
+JoinSeq(es, sep) ==
+    IF es = <<>> THEN <<>>
+    ELSE IF Len(es) = 1 THEN ShowElem(es[1])
+    ELSE ShowElem(es[1]) \o sep \o JoinSeq(Tail(es), sep)
+\* every non-overlapping occurrence of the non-empty text a, left to right
+RECURSIVE TextReplaceAll(_, _, _)
+TextReplaceAll(s, a, b) ==
+    IF s = <<>> THEN <<>>
+    ELSE IF StartsAt(s, 1, a) THEN b \o TextReplaceAll(SubSeq(s, Len(a) + 1, Len(s)), a, b)
+    ELSE <<s[1]>> \o TextReplaceAll(Tail(s), a, b)
+\* simple case mapping of the letters used here (A-Z, a-z, 201 / 233)
+Lower(ch) == IF (ch >= 65 /\ ch <= 90) \/ ch = 201 THEN ch + 32 ELSE ch
+Upper(ch) == IF (ch >= 97 /\ ch <= 122) \/ ch = 233 THEN ch - 32 ELSE ch
+\* edit distance over characters
+RECURSIVE Lev(_, _)
+Lev(a, b) ==
+    IF a = <<>> THEN Len(b)
+    ELSE IF b = <<>> THEN Len(a)
+    ELSE LET x == Lev(Tail(a), b) + 1
+             y == Lev(a, Tail(b)) + 1
+             z == Lev(Tail(a), Tail(b)) + (IF a[1] = b[1] THEN 0 ELSE 1)
+             m == IF x < y THEN x ELSE y IN
+         IF m < z THEN m ELSE z
 
 ListMember(r, m, args) ==
     LET es == r.es
@@ -73,6 +118,7 @@ ListMember(r, m, args) ==
       [] m = "remove" -> LET p == IndexNorm(args[1].v, n) IN
                          IF p < 0 \/ p >= n THEN Interrupt ELSE Ok(VNull, VList(MemRemoveAt(es, p + 1)))
       [] m = "sort" -> Ok(VNull, VList(SortInts(es)))
+      [] m = "join" -> Ok(VStr(JoinSeq(es, args[1].cs)), r)
       [] m = "index" -> LET p == IndexNorm(args[1].v, n) IN
                         IF p < 0 \/ p >= n THEN Interrupt ELSE Ok(es[p + 1], r)
 
@@ -91,6 +137,31 @@ RangeMember(r, m, args) ==
 
 IntMember(r, m, args) ==
     CASE m = "to_range" -> Ok(VRange(0, r.v, FALSE), r)
+      [] m = "to_string" -> Ok(VStr(IntText(r.v)), r)
+
+BoolMember(r, m, args) ==
+    CASE m = "to_string" -> Ok(VStr(IF r.v THEN TrueText ELSE FalseText), r)
+
+\* r.v is twice the float: round goes half away from zero, trunc towards zero
+FloatMember(r, m, args) ==
+    LET h == r.v IN
+    CASE m = "is_int" -> Ok(VB(h % 2 = 0), r)
+      [] m = "trunc" -> Ok(VI(IF h >= 0 THEN h \div 2 ELSE 0 - ((0 - h) \div 2)), r)
+      [] m = "round" -> Ok(VI(IF h >= 0 THEN (h + 1) \div 2 ELSE 0 - ((1 - h) \div 2)), r)
+
+\* any-objects: keys are kept ascending
+AnyPos(r, key) == { j \in 1..Len(r.ks) : r.ks[j] = key }
+TypeName(v) == CASE v.k = "int" -> <<105, 110, 116>> [] v.k = "str" -> <<115, 116, 114>> [] v.k = "bool" -> <<98, 111, 111, 108>>
+AnyMember(r, m, args) ==
+    CASE m = "keys" -> Ok(VList([j \in 1..Len(r.ks) |-> VStr(r.ks[j])]), r)
+      [] m = "get" -> IF AnyPos(r, args[1].cs) = {} THEN Ok(VNone, r)
+                      ELSE Ok(VSome(r.vs[CHOOSE j \in AnyPos(r, args[1].cs) : TRUE]), r)
+      [] m = "get_type" -> IF AnyPos(r, args[1].cs) = {} THEN [ok |-> TRUE, undecided |-> TRUE]
+                           ELSE Ok(VStr(TypeName(r.vs[CHOOSE j \in AnyPos(r, args[1].cs) : TRUE])), r)
+      [] m = "set" -> IF AnyPos(r, args[1].cs) # {}
+                      THEN Ok(VNull, VAny(r.ks, [r.vs EXCEPT ![CHOOSE j \in AnyPos(r, args[1].cs) : TRUE] = args[2]]))
+                      ELSE LET pos == Cardinality({j \in 1..Len(r.ks) : TextLess(r.ks[j], args[1].cs)}) + 1 IN
+                           Ok(VNull, VAny(MemInsertAt(r.ks, pos, args[1].cs), MemInsertAt(r.vs, pos, args[2])))
 
 StrMember(r, m, args) ==
     LET s == r.cs
@@ -103,7 +174,12 @@ StrMember(r, m, args) ==
       [] m = "split" -> IF Len(args[1].cs) = 1
                         THEN Ok(VList([j \in 1..Len(SplitOn(s, args[1].cs[1], <<>>)) |-> VStr(SplitOn(s, args[1].cs[1], <<>>)[j])]), r)
                         ELSE [ok |-> TRUE, undecided |-> TRUE]
-      [] m = "parse_int" -> IF IsDigits(s) /\ n <= 6 THEN Ok(VI(DigitsVal(s)), r) ELSE Interrupt
+      [] m = "parse_int" -> IF IsIntText(s) /\ n <= 7 THEN Ok(VI(IntTextVal(s)), r) ELSE Interrupt
+      [] m = "replace" -> IF args[1].cs = <<>> THEN [ok |-> TRUE, undecided |-> TRUE]
+                          ELSE Ok(VStr(TextReplaceAll(s, args[1].cs, args[2].cs)), r)
+      [] m = "to_lower" -> Ok(VStr([j \in 1..n |-> Lower(s[j])]), r)
+      [] m = "to_upper" -> Ok(VStr([j \in 1..n |-> Upper(s[j])]), r)
+      [] m = "compare_lev" -> Ok(VI(Lev(s, args[1].cs)), r)
       [] m = "parse_bool" -> IF s = <<116,114,117,101>> THEN Ok(VB(TRUE), r) ELSE IF s = <<102,97,108,115,101>> THEN Ok(VB(FALSE), r) ELSE Interrupt
       [] m = "index" -> LET p == IndexNorm(args[1].v, n) IN
                         IF p < 0 \/ p >= n THEN Interrupt ELSE Ok(VStr(<<s[p + 1]>>), r)
@@ -114,22 +190,40 @@ Eval(x) ==
       [] x.recv.k = "range" -> RangeMember(x.recv, x.m, x.args)
       [] x.recv.k = "int" -> IntMember(x.recv, x.m, x.args)
       [] x.recv.k = "str" -> StrMember(x.recv, x.m, x.args)
+      [] x.recv.k = "bool" -> BoolMember(x.recv, x.m, x.args)
+      [] x.recv.k = "flt" -> FloatMember(x.recv, x.m, x.args)
+      [] x.recv.k = "anyobj" -> AnyMember(x.recv, x.m, x.args)
 
 -----------------------------------------------------------------------------
 (* boundary receivers and arguments *)
-Lists == { VList(<<>>), VList(<<VI(5)>>), VList(<<VI(5), VI(6), VI(7)>>), VList(<<VI(3), VI(1), VI(2), VI(1)>>) }
 Idx(n) == { -n - 1, -n, -1, 0, n - 1, n, n + 1 }
 Txt(t) == VStr(t)
-Strs == { Txt(<<>>), Txt(<<97>>), Txt(<<97,98,99>>), Txt(<<97,44,98>>), Txt(<<49,50>>), Txt(<<116,114,117,101>>), Txt(<<44>>) }
+IntLists == { VList(<<>>), VList(<<VI(5)>>), VList(<<VI(5), VI(6), VI(7)>>), VList(<<VI(3), VI(1), VI(2), VI(1)>>), VList(<<VI(-4), VI(0), VI(120)>>) }
+\* lists of texts: the empty text first, in the middle, alone, twice; texts to sort (prefixes, capitals, non-ASCII)
+TxtLists == { VList(<<>>), VList(<<Txt(<<>>)>>), VList(<<Txt(<<>>), Txt(<<98>>)>>), VList(<<Txt(<<>>), Txt(<<>>)>>),
+              VList(<<Txt(<<97>>), Txt(<<>>), Txt(<<99>>)>>), VList(<<Txt(<<98>>), Txt(<<97, 98>>), Txt(<<97>>), Txt(<<66>>), Txt(<<233>>)>>) }
+Lists == IntLists \cup TxtLists
+NewElem(l) == IF l \in TxtLists THEN Txt(<<122>>) ELSE VI(9)
+OldElem(l) == IF l \in TxtLists THEN Txt(<<>>) ELSE VI(1)
+\* texts: ASCII, a two-byte and a four-byte character at the start, in the middle, at the end; signed numbers
+Strs == { Txt(<<>>), Txt(<<97>>), Txt(<<97,98,99>>), Txt(<<97,44,98>>), Txt(<<49,50>>), Txt(TrueText), Txt(<<44>>),
+          Txt(<<233>>), Txt(<<97,233,98>>), Txt(<<128512,97>>), Txt(<<97,98,233>>), Txt(<<45,53>>), Txt(<<43,55>>), Txt(<<45>>),
+          Txt(<<65,98,65>>), Txt(<<97,97,97>>) }
+Seps == { Txt(<<>>), Txt(<<44>>), Txt(<<44, 32>>) }
+Flts == { VF(0), VF(6), VF(5), VF(-5), VF(7), VF(-3), VF(-4), VF(1), VF(-1) }
+Anys == { VAny(<<>>, <<>>), VAny(<< <<97>> >>, <<VI(1)>>), VAny(<< <<97>>, <<99>> >>, <<VI(1), Txt(<<120>>)>>) }
+Keys == { Txt(<<97>>), Txt(<<98>>), Txt(<<99>>), Txt(<<>>) }
 Opts == { VNone, VSome(VI(4)) }
 Ranges == { VRange(0, 3, FALSE), VRange(3, 0, TRUE), VRange(2, 2, FALSE) }
 
 Cases ==
     UNION { { [recv |-> l, m |-> m, args |-> <<>>] : m \in {"len", "pop", "pop_front", "last", "sort"} } : l \in Lists }
-    \cup UNION { { [recv |-> l, m |-> m, args |-> <<VI(9)>>] : m \in {"push", "push_front", "contains"} } : l \in Lists }
-    \cup { [recv |-> l, m |-> "contains", args |-> <<VI(1)>>] : l \in Lists }
-    \cup { [recv |-> l, m |-> "concat", args |-> <<l2>>] : l \in Lists, l2 \in Lists }
-    \cup UNION { { [recv |-> l, m |-> "insert", args |-> <<VI(i), VI(9)>>] : i \in Idx(Len(l.es)) } : l \in Lists }
+    \cup UNION { { [recv |-> l, m |-> m, args |-> <<NewElem(l)>>] : m \in {"push", "push_front", "contains"} } : l \in Lists }
+    \cup { [recv |-> l, m |-> "contains", args |-> <<OldElem(l)>>] : l \in Lists }
+    \cup { [recv |-> l, m |-> "concat", args |-> <<l2>>] : l \in IntLists, l2 \in IntLists }
+    \cup { [recv |-> l, m |-> "concat", args |-> <<l2>>] : l \in TxtLists, l2 \in TxtLists }
+    \cup { [recv |-> l, m |-> "join", args |-> <<sp>>] : l \in Lists, sp \in Seps }
+    \cup UNION { { [recv |-> l, m |-> "insert", args |-> <<VI(i), NewElem(l)>>] : i \in Idx(Len(l.es)) } : l \in Lists }
     \cup UNION { { [recv |-> l, m |-> "remove", args |-> <<VI(i)>>] : i \in Idx(Len(l.es)) } : l \in Lists }
     \cup UNION { { [recv |-> l, m |-> "index", args |-> <<VI(i)>>] : i \in Idx(Len(l.es)) } : l \in Lists }
     \cup UNION { { [recv |-> o, m |-> m, args |-> <<>>] : m \in {"is_some", "is_none", "unwrap"} } : o \in Opts }
@@ -137,8 +231,16 @@ Cases ==
     \cup { [recv |-> o, m |-> "expect", args |-> <<Txt(<<109>>)>>] : o \in Opts }
     \cup UNION { { [recv |-> r, m |-> m, args |-> <<>>] : m \in {"start", "end", "rev", "diff"} } : r \in Ranges }
     \cup { [recv |-> VI(n), m |-> "to_range", args |-> <<>>] : n \in {0, 3} }
-    \cup UNION { { [recv |-> s, m |-> m, args |-> <<>>] : m \in {"len", "parse_int", "parse_bool"} } : s \in Strs }
-    \cup { [recv |-> s, m |-> m, args |-> <<s2>>] : s \in Strs, s2 \in Strs, m \in {"contains", "starts_with", "split"} }
+    \cup { [recv |-> VI(n), m |-> "to_string", args |-> <<>>] : n \in {0, 7, -7, 10, -120, 12345, 1000000007} }
+    \cup { [recv |-> VB(b), m |-> "to_string", args |-> <<>>] : b \in BOOLEAN }
+    \cup { [recv |-> f, m |-> m, args |-> <<>>] : f \in Flts, m \in {"is_int", "trunc", "round"} }
+    \cup { [recv |-> a, m |-> "keys", args |-> <<>>] : a \in Anys }
+    \cup { [recv |-> a, m |-> m, args |-> <<key>>] : a \in Anys, key \in Keys, m \in {"get", "get_type"} }
+    \cup { [recv |-> a, m |-> "set", args |-> <<key, v>>] : a \in Anys, key \in Keys, v \in {VI(8), Txt(<<121>>)} }
+    \cup UNION { { [recv |-> s, m |-> m, args |-> <<>>] : m \in {"len", "parse_int", "parse_bool", "to_lower", "to_upper"} } : s \in Strs }
+    \cup { [recv |-> s, m |-> m, args |-> <<s2>>] : s \in Strs, s2 \in Strs, m \in {"contains", "starts_with", "split", "compare_lev"} }
+    \cup { [recv |-> s, m |-> "replace", args |-> <<s2, s3>>] : s \in Strs, s2 \in {Txt(<<>>), Txt(<<97>>), Txt(<<97, 97>>), Txt(<<233>>), Txt(<<97, 98>>)},
+                                                               s3 \in {Txt(<<>>), Txt(<<97>>), Txt(<<120, 121>>)} }
     \cup UNION { { [recv |-> s, m |-> "repeat", args |-> <<VI(i)>>] : i \in {-1, 0, 1, 3} } : s \in Strs }
     \cup UNION { { [recv |-> s, m |-> "substring", args |-> <<VI(i)>>] : i \in Idx(Len(s.cs)) } : s \in Strs }
     \cup UNION { { [recv |-> s, m |-> "index", args |-> <<VI(i)>>] : i \in Idx(Len(s.cs)) } : s \in Strs }
@@ -155,7 +257,7 @@ LenLaws ==
         CASE c.m \in {"push", "push_front", "insert"} -> Len(R.recv.es) = Len(c.recv.es) + 1
           [] c.m = "remove" -> Len(R.recv.es) = Len(c.recv.es) - 1
           [] c.m \in {"pop", "pop_front"} -> Len(R.recv.es) = IF c.recv.es = <<>> THEN 0 ELSE Len(c.recv.es) - 1
-          [] c.m = "sort" -> Len(R.recv.es) = Len(c.recv.es) /\ \A j \in 1..(Len(R.recv.es) - 1) : R.recv.es[j].v <= R.recv.es[j + 1].v
+          [] c.m = "sort" -> Len(R.recv.es) = Len(c.recv.es) /\ \A j \in 1..(Len(R.recv.es) - 1) : ~ElemLess(R.recv.es[j + 1], R.recv.es[j])
           [] OTHER -> TRUE
 
 Export == done => PrintT(<<"CASE", ToJson([recv |-> c.recv, m |-> c.m, args |-> c.args, r |-> R])>>)
